@@ -770,7 +770,7 @@ def run(ctx):
     rec = ctx.rec
     cover.start(['atomman/core/Atoms.py', 'atomman/core/System.py'])
 
-    nhist = ctx.pick(640, 6000)
+    nhist = ctx.pick(640, 4800)
     pairs = set()
     nops = ctx.pick(25, 40)
     for i in ctx.cases('histories', nhist):
